@@ -204,7 +204,10 @@ func (g *GRE) SerializeTo(b gopacket.SerializeBuffer, opts gopacket.SerializeOpt
 			binary.BigEndian.PutUint16(buf[offset:offset+2], sre.AddressFamily)
 			buf[offset+2] = sre.SREOffset
 			buf[offset+3] = sre.SRELength
-			copy(buf[offset+4:offset+4+int(sre.SRELength)], sre.RoutingInformation)
+			n := copy(buf[offset+4:offset+4+int(sre.SRELength)], sre.RoutingInformation)
+			for k := offset + 4 + n; k < offset+4+int(sre.SRELength); k++ {
+				buf[k] = 0
+			}
 			offset += 4 + int(sre.SRELength)
 			sre = sre.Next
 		}
